@@ -42,8 +42,11 @@ def main():
                     muts[key(m)] = m
     jobs = []
     seen_src = {}
+    own = "--own" in sys.argv  # re-run the property's OWN check (after the checks were strengthened) instead of the others
     for k, m in muts.items():
-        others = sorted(q for q, fs in files_of.items() if q != m["pid"] and m["file"] in fs)
+        others = [m["pid"]] if own else sorted(q for q, fs in files_of.items() if q != m["pid"] and m["file"] in fs)
+        if own and cands[k].get("caught_by_other"):
+            continue
         for q in others:
             jobs.append((k, q))
     print(f"{len(cands)} tests-pass survivors, {len(muts)} rebuilt, {len(jobs)} (mutant, other property) runs", flush=True)
@@ -65,12 +68,15 @@ def main():
     with ThreadPoolExecutor(max_workers=workers) as ex:
         res = list(ex.map(job, jobs))
     for k, q, r in res:
-        cands[k].setdefault("other_checks", {})[q] = {"status": r["status"], "signatures": r.get("signatures", [])[:3]}
+        if own:
+            cands[k]["own_recheck"] = {"status": r["status"], "signatures": r.get("signatures", [])[:3]}
+        else:
+            cands[k].setdefault("other_checks", {})[q] = {"status": r["status"], "signatures": r.get("signatures", [])[:3]}
     for k, r in cands.items():
         r.setdefault("other_checks", {})
         r["caught_by_other"] = sorted(q for q, o in r["other_checks"].items() if o["status"] != "survived")
     json.dump(data, open(out_path, "w"), indent=1)
-    left = [r for r in cands.values() if not r["caught_by_other"]]
+    left = [r for r in cands.values() if not r["caught_by_other"] and r.get("own_recheck", {}).get("status", "survived") == "survived"]
     print(f"--- {len(left)} tests-pass survivors that no check reports:")
     for r in sorted(left, key=key):
         print(f"{r['pid']} {r['file'].split('/')[-1]}:{r['line']} {r['func']} [{r['desc']}] | {r['stmt'][:90]}")
